@@ -211,7 +211,9 @@ func (d *disconnectHandler) handleGracePeriodExpired() {
 			)...,
 		)
 
-		d.election.becomeFollower()
+		if !d.election.becomeFollower() {
+			return
+		}
 
 		d.election.mu.RLock()
 		onDemote := d.election.onDemote
